@@ -24,8 +24,8 @@ import (
 
 	"github.com/safing/portbase/api"
 	"github.com/safing/portbase/database"
-	"github.com/safing/portbase/database/record"
 	_ "github.com/safing/portbase/database/dbmodule"
+	"github.com/safing/portbase/database/record"
 	_ "github.com/safing/portbase/database/storage/badger"
 	_ "github.com/safing/portbase/database/storage/bbolt"
 	_ "github.com/safing/portbase/database/storage/fstree"
